@@ -108,22 +108,29 @@ def deliverAll (f : Sys → Wire → Sys × List Wire) (y : Sys) : List Wire →
     let (y2, more2) := deliverAll f y1 ws
     (y2, more1 ++ more2)
 
-/-- Deliver responses round by round (bounded like the harness: 8 rounds). -/
-def deliverRounds : Nat → Sys → List Wire → List Wire → Sys
-  | 0, y, _, _ => y
-  | fuel + 1, y, sw, dw =>
+/-- Deliver responses round by round (bounded like the harness: 8 rounds), at most `bs` to the SotW
+    client and `bd` to the delta client: after that the stream is cut, the remaining responses are
+    lost and never acknowledged. -/
+def deliverRounds : Nat → Nat → Nat → Sys → List Wire → List Wire → Sys
+  | 0, _, _, y, _, _ => y
+  | fuel + 1, bs, bd, y, sw, dw =>
     if sw.isEmpty && dw.isEmpty then y else
-    let (y1, sMore) := deliverAll sotwDeliver y sw
-    let (y2, dMore) := deliverAll deltaDeliver y1 dw
-    deliverRounds fuel y2 sMore dMore
+    let sw' := sw.take bs
+    let dw' := dw.take bd
+    let (y1, sMore) := deliverAll sotwDeliver y sw'
+    let (y2, dMore) := deliverAll deltaDeliver y1 dw'
+    deliverRounds fuel (bs - sw'.length) (bd - dw'.length) y2 sMore dMore
 
-def deliver (y : Sys) (sw dw : List Wire) : Sys := deliverRounds 8 y sw dw
+def unbounded : Nat := 1073741824
+
+def deliver (y : Sys) (sw dw : List Wire) : Sys := deliverRounds 8 unbounded unbounded y sw dw
 
 inductive Op
   | world (t : Ty) (res : List Res)
   | sub (t : Ty) (names : List String)
   | pushall
   | reconnect
+  | pushcut (k : Nat)
 
 def changedNames (old new : List Res) : List String :=
   (new.filter (fun r => get old r.1 != some r.2)).map (·.1) ++
@@ -187,6 +194,16 @@ def step (y : Sys) : Op → Sys
              world := fun t' => if t' = t && t = .eds then res else y.world t',
              changed := fun t' => if t' = t then y.changed t ++ ch else y.changed t' }
   | .sub t names => stepSub y t names
+  | .pushcut k =>
+    -- a push whose delivery is cut after `k` responses per client, then both streams break
+    let y := { y with world := y.pending }
+    let (sv, sw) := pushConnSotw y.genReq y.ssrv
+    let (dv, dw) := pushConnDelta y.genPushDelta y.dsrv
+    let y1 := { y with ssrv := sv, dsrv := dv, changed := fun _ => [] }
+    let y2 := deliverRounds 8 k k y1 sw dw
+    { y2 with ssrv := { ctr := y2.ssrv.ctr }, dsrv := { ctr := y2.dsrv.ctr },
+              sc := fun t => { y2.sc t with subscribed := false },
+              dc := fun t => { y2.dc t with subscribed := false } }
   | .reconnect =>
     -- both streams break; the server forgets everything about them (fresh watch tables, possibly
     -- another instance); the clients keep what they hold, their nonces and subscriptions and will
